@@ -9,12 +9,58 @@ NOTE = ('Trusted: rustc/LLVM IR as compiled, llsym (own symbolic executor), z3, 
         'Universe bounds (actors, counters, members/keys, pending removes, ops) are stated in the evidence file; larger universes, u64 overflow '
         'and other generic instantiations than u8 are outside the claim.')
 
+IND = ('Inductive form: the state of each type is proved equal to a declarative function SPEC(U,K) of the knowledge set K alone by one solver query per '
+       'lemma (L_init, L_apply, L_dup, L_merge over every universe U and knowledge K within the bounds), so histories, interleavings, duplicates '
+       'and merges of ANY length are covered by induction; bounded in universe size (actors, counters, members/keys, removes), not in history length. ')
+
 CLAIMED = {
+    'C01': (IND + 'Types covered: VClock, GCounter, PNCounter, GSet, LWWReg, Max/MinReg (any delivery order), MVReg (any order), Orswot and '
+            'Map<_,Orswot> with nested adds (per-actor order, which includes every causal schedule): equal delivered sets give equal SPEC hence equal '
+            'reads and contexts. List/GList/MerkleReg/Map<_,MVReg> are not covered by this check yet (stated in DESIGN.md).', '§6 C01'),
+    'C02': (IND + 'merge(SPEC(K1),SPEC(K2)) == SPEC(K1 u K2) makes merge a function of the knowledge union, hence commutative, associative and '
+            'idempotent on all reachable states (pending removes included) for VClock, GCounter, PNCounter, GSet, LWWReg, Max/MinReg, MVReg, Orswot. '
+            'Map::merge could not be encoded within memory (DESIGN.md §9) and is outside this check.', '§6 C02'),
+    'C03': (IND + 'L_merge together with L_apply shows that a merged state reads exactly like the replica that applied the union of the ops, and that '
+            'ops and merges can be mixed freely (both produce SPEC of the union) for the counters, registers, GSet, MVReg and Orswot; Map::merge is outside.', '§6 C03'),
+    'C04': (IND + 'SPEC_Orswot is the property statement itself (member present iff an applied add is not covered by an applied remove context; the '
+            'element context is the surviving witnesses); every read entry point is compared with it on every SPEC state.', '§6 C04'),
+    'C05': (IND + 'SPEC_Map<Orswot> is the property statement (key present iff an applied update is not covered by an applied key remove; nested '
+            'members survive iff not covered); L_apply for updates and key removes (also overtaking ones), L_dup and all reads are decided by the '
+            'solver. Nested values: Orswot with nested adds; nested MVReg/Map values, nested removes and Map::merge are outside this check.', '§6 C05'),
+    'C06': (IND + 'SPEC_MVReg = one value per applied write not observed by another applied write; K ranges over ALL subsets of the writes (no '
+            'delivery-order assumption), every stored order of the value vector is covered, equal concurrent values are a cover point.', '§6 C06'),
+    'C07': ('On every SPEC(U,K) state of top-level Orswot, Map<Orswot> and MVReg each read entry point is compared with the specification (add context '
+            '= knowledge clock, element rm context = surviving witnesses, empty iff absent, never above the add context) and the ops built through '
+            'derive_add_ctx / derive_rm_ctx are shown to be exactly the universe ops with the next unused dot.', '§6 C07'),
+    'C08': (IND + 'The knowledge sets K of the Orswot/Map lemmas are only per-actor ordered (any subset of removes, applied before or after what they '
+            'observed), MVReg/counters/registers/GSet use arbitrary subsets; pending removes are part of SPEC and travel through L_merge (Orswot). '
+            'Hence any delivery schedule respecting per-actor order yields the state causal delivery yields.', '§6 C08'),
+    'C09': (IND + 'L_dup (re-applying any applied op leaves == and reads unchanged, including stale adds of removed elements) and L_merge with '
+            'K2 subset of K1 (stale / equal / own past state absorbed) for Orswot, MVReg, counters, registers, GSet; L_dup for Map<Orswot>.', '§6 C09'),
     'C10': ('Every VClock/Dot operation is compared with the pointwise specification for all clocks over 3 actors and counters 0..2 (thorough: 0..3); '
             'per-actor independence of the code makes this representative. No abstraction: the deciding step is an unsat verdict per harness.', '§6 C10'),
+    'C11': (IND + 'GCounter/PNCounter read the arithmetic sum of the largest learned totals (u128 model of BigUint), Max/MinReg the extremum, LWWReg '
+            'the greatest marker (conflict flag exact), GSet the union; K = arbitrary subsets with duplicates; inc/dec/inc_many/dec_many are '
+            'realised at the author.', '§6 C11'),
+    'C16': ('validate_op is evaluated on every SPEC(U,K) state against every universe op: Ok for the next op of an actor and for re-deliveries, the '
+            'ordering error exactly for a gap (VClock, Orswot), conflict exactly for a reused marker (LWWReg), always Ok for MVReg/counters; for Map the '
+            'false rejection of an in-order update (D3) is a listed known finding, any other deviation is a violation. List and MerkleReg are outside.', '§6 C16'),
+    'C17': ('validate_merge on all pairs SPEC(U,K1), SPEC(U,K2) (correct use) and on pairs from two independent universes sharing actor ids (misuse): '
+            'same verdict both ways, error iff some dot currently witnesses different members; the add_all false positive (D4) is a listed known finding. '
+            'Orswot and LWWReg; Map::validate_merge is outside.', '§6 C17'),
+    'C18': ('reset_remove(c) with an arbitrary clock c (below, above, concurrent) on every SPEC state of VClock, MVReg and Orswot is compared with '
+            'the dot-subtraction specification; empty-clock no-op, own-clock empties, c1 then c2 = join, idempotence. Map/GCounter/PNCounter delegate '
+            'to these and are covered through them only.', '§6 C18'),
+    'C20': (IND + 'Every lemma compares with == (the PartialEq of the crate) against SPEC(U,K), which holds exactly the clock, the surviving elements with '
+            'their witnesses and the still-pending removes: equal knowledge gives == states and a fully delivered remove leaves no residue (Orswot, '
+            'MVReg, Map<Orswot> op path, counters, registers).', '§6 C20'),
 }
 
 NOT_APPLICABLE = {
+    'C12': 'List sequence properties need the identifier/Vec/BigRational path through the encoder; harnesses not built yet in this revision',
+    'C13': 'index semantics of List/GList: harnesses not built yet in this revision',
+    'C14': 'identifier order/density: harnesses not built yet in this revision',
+    'C15': 'MerkleReg: harnesses not built yet in this revision',
     'C19': 'serde_json round-trip: byte-stream serialisation code with data-dependent buffers is outside what the IR-level symbolic executor '
            'can encode within reach; see DESIGN.md §7',
 }
